@@ -30,8 +30,8 @@ def main():
     import semmc, mc
     quick = core.tier() == "quick"
     F = universe()
-    r = semmc.run("C01_pointwise", forms=F, maxlen=3 if quick else 5, invariants=["PointwiseEq"])
-    rep.add_mc("Sig (signal transformer) = the README's pointwise inductive definition RhoPt: %d formulas x all traces" % len(F), r)
+    r = semmc.run("C01_pointwise", forms=F, maxlen=3 if quick else 5, invariants=["PointwiseEq", "OfflineRefines"])
+    rep.add_mc("Sig = pointwise README definition RhoPt, and the offline list algorithms (Offline!OffEval) = Sig: %d formulas x all traces" % len(F), r)
     if r["violated"]:
         rep.mc_violation("C01_pointwise", r)
     r = mc.rtamt_mc("C01_offline", F[::3], [mc.std_cfg(["x", "y"])], maxlen=3, mode="offline", invariants=["InvC01", "InvC13"], properties=["ActC16"])
